@@ -43,6 +43,13 @@ degrees) the check enumerates
   translated vertically ('g7@120.0', 'g7@-50.0', thorough 'g5@-120.0', 'g5@-250.0'), two columns in five then
   getting the surface 0.0 / -0.0.
 
+* further geometries (both tiers, all unit kinds): 'rectnc' / 'rectnc_r' - a 3x3 grid with an interior node dragged
+  into the diagonally opposite column, which becomes a non-convex (arrowhead) quadrilateral (also rotated by 30
+  degrees); 'bulge' - a 6x2 grid whose outer sides carry convex corners turning by 0.1, 0.2, 0.4, 0.7 and 1.6 degrees.
+* near-node points (every geometry, with the vertex-aligned points): for every node and every column at it, the
+  points node + t x (vertex mean of the column - node), t = 1e-3 and 1e-2, with every single aid - just inside the
+  column at its corner, where the boundary polygon used as 'bounds' differs most from the true outline.
+
 Oracle = the property statement, evaluated with the exact reference geometry ref/geo_c12.py (integer
 arithmetic on the node coordinates; nothing under test is called by it).
 """
@@ -63,7 +70,8 @@ RULE = ('per geometry: every point of the shifted 41x41 lattice over the enlarge
         'every column (<= 120 columns) or the true/nearest column, each of its neighbours, the farthest column; bounds '
         '= boundary polygon, bounding rectangle; columns = true column + neighbours, the x-half and the y-half of the '
         'columns containing it; quadtree over all columns and over each such subset; every pair of aids); for every node '
-        'the 9 points (3 x offsets) x (y of the node, its two floating-point neighbours) x every single aid; per column '
+        'the 9 points (3 x offsets) x (y of the node, its two floating-point neighbours) and, per column at the node, the '
+        'two points 1e-3 and 1e-2 of the way to the column centre x every single aid; per column '
         'one interior point x the elevation set x {no quadtree, quadtree}; every ordered pair of lattice points as a '
         'line, not within tolerance of a node; and on one object of rect, g7 (thorough: g5) the sequences query, '
         'rotate(30), translate, rotate(-75) and query, translate, rotate(90) with a reduced query pass (21x21 points x '
@@ -97,11 +105,15 @@ ASSUMPTIONS = [
     'defined by col.surface alone',
     'delete_column() is followed by the two index set-ups (the primitive does not refresh them: F15); refine(), '
     'reduce() and split_column() refresh them themselves',
+    'boundary corners of the built geometry bulge turn by at least 0.1 degrees, above the documented default colinearity '
+    'tolerance of simplify_polygon (1e-6 on 1 - cos(turn), 0.081 degrees): corners below it may legitimately be dropped '
+    'from boundary_polygon and are not in the lattice; geometries are connected tilings (parts touching at a single '
+    'node are outside the family)',
     'refine() and rotate() are used only to build geometries; refined columns are labelled name-free (rank by '
     'centre) because refine() names new columns in set order',
 ]
 BOUNDS = {
-    'quick': {'geometries': ['rect', 'rect_rr', 'g7', 'g7_rr'],
+    'quick': {'geometries': ['rect', 'rect_rr', 'rectnc', 'rectnc_r', 'bulge', 'g7', 'g7_rr'],
               'point_lattice': '41x41 + 3x3 per column + 9 vertex-aligned points per node',
               'aids': 'every single aid and every pair of aids (pairs and vertex-aligned points use the reduced guess set: '
                       'true/nearest column, its neighbours, the farthest column)',
@@ -111,7 +123,7 @@ BOUNDS = {
               'histories': 'rect, g7 x 2 transform sequences (3 and 2 in-place transforms), query pass after every step',
               'edit_histories': 'rect, g7 x {refine, delete_column, reduce, split_column} x {corner, centre, side} target',
               'surface_routes': 'rect43, g7 (rect43 = 4x3 rectangular, 5 layers) x 5 routes x every column x elevation set'},
-    'thorough': {'geometries': ['rect', 'rect_rr', 'g7', 'g7_rr', 'g5', 'g5_rr', 'g1', 'g1_rr'],
+    'thorough': {'geometries': ['rect', 'rect_rr', 'rectnc', 'rectnc_r', 'bulge', 'g7', 'g7_rr', 'g5', 'g5_rr', 'g1', 'g1_rr'],
                  'point_lattice': '41x41 + 3x3 per column + 9 vertex-aligned points per node',
                  'aids': 'every single aid and every pair of aids (pairs and vertex-aligned points use the reduced guess '
                          'set: true/nearest column, its neighbours, the farthest column)',
